@@ -162,7 +162,7 @@ Final ==
      IN /\ counter' = r.c /\ registered' = r.reg /\ finished' = TRUE /\ lpc' = "done"
         /\ Emit(r.evs \o <<[e |-> "lcall", op |-> "idle_wait", k |-> r.k, f |-> 0],
                           [e |-> "lret", op |-> "idle_wait", k |-> r.k, r |-> "ok",
-                           elapsed_us |-> IF spin THEN 0 ELSE 40000, timeout_us |-> 40000],
+                           elapsed_us |-> IF spin THEN 0 ELSE 4000, timeout_us |-> 4000],
                           [e |-> "lcall", op |-> "snap", k |-> r.k + 1, f |-> 0],
                           [e |-> "lret", op |-> "snap", k |-> r.k + 1, r |-> "ok", occupied |-> IF r.reg THEN 1 ELSE 0],
                           [e |-> "loop_done"], [e |-> "end", id |-> "model", stuck |-> 0, loop_ok |-> 1]>>, Loop)
